@@ -119,6 +119,38 @@ pub fn check_interface(
             zone.entry(v.merge_key(n)).or_default().insert(n.clone());
         }
     }
+    // A group made only of unsatisfied argument names on one semver track (no explicit import and no
+    // dependency shares its merge key) is outside every recorded deviation: its single import must be
+    // named for the highest version of the group.
+    {
+        let mut pure: BTreeMap<String, BTreeSet<String>> = BTreeMap::new();
+        for (_, n, _) in &v.unsatisfied {
+            if crate::props::c15::model_track(n).is_some() {
+                pure.entry(v.merge_key(n)).or_default().insert(n.clone());
+            }
+        }
+        for (key, names) in &pure {
+            if names.len() < 2 {
+                continue;
+            }
+            let foreign = allowed.iter().chain(v.explicit_iid.values()).chain(v.explicit_iid.keys()).chain(v.explicit.iter().map(|(e, _, _)| e)).any(|n| v.merge_key(n) == *key);
+            if foreign {
+                continue;
+            }
+            let highest = names
+                .iter()
+                .max_by(|a, b| match (crate::props::c15::model_track(a), crate::props::c15::model_track(b)) {
+                    (Some((_, _, va)), Some((_, _, vb))) => va.cmp(&vb),
+                    _ => std::cmp::Ordering::Equal,
+                })
+                .unwrap();
+            ctx.count("pure-implicit-groups-checked");
+            let emitted: Vec<&String> = got_set.iter().filter(|g| v.merge_key(g) == *key).collect();
+            if emitted.len() != 1 || emitted[0] != highest {
+                ctx.violation(case, "C03:shared-implicit-import-not-named-for-the-highest-version", format!("unsatisfied arguments {names:?} share one import, which must be `{highest}`; the output has {emitted:?}"), input.clone());
+            }
+        }
+    }
     let in_zone = |n: &str| zone.get(&v.merge_key(n)).map(|s| s.len() >= 2).unwrap_or(false);
     let mut zone_deviation = false;
     for n in &want {
